@@ -266,6 +266,11 @@ fn op_done(op: usize, v: usize) { RES[op].store(v, SeqCst); RET[op].store(now(),
                 canaries.setdefault(op[2], [c for s_, c in [(g[0], canaries.get(g[1])) for g in gives] if s_ == op[1]][0] if any(g[0] == op[1] for g in gives) else len(canaries))
                 body.append('vsched::harness_event("__take", |_| SLOTFULL[%d].load(SeqCst)); let mut dv_%s = SLOT_%d.lock().unwrap().take(); SLOTFULL[%d].store(false, SeqCst);' % (op[1], op[2], op[1], op[1]))
             else: raise ValueError('replay: op ' + kind)
+        # a reference the scenario never drops is kept for the whole run (the model's thread body returns without dropping its locals; the
+        # implicit drop at the end of the harness closure destroyed the Desync behind the model's back: witness divergence on c11_*_su)
+        for op in th['ops']:
+            if op[0] in ('p_new', 'd_new'): body.append('std::mem::forget(dv_%s);' % op[1])
+            elif op[0] == 'd_take': body.append('std::mem::forget(dv_%s);' % op[2])
         clones = ' '.join('let q%d = Arc::clone(&q%d);' % (q, q) for q in range(nq))
         A('    let h_%s = { %s vsched::spawn_controlled("%s", move || { %s }) };' % (th['name'], clones, th['name'], ' '.join(body)))
         handles.append('h_' + th['name'])
